@@ -222,11 +222,26 @@ premises of `set_is_one_tree_update` / `pop_is_one_tree_update` (no aliasing, fr
 the driver also computes `J.setAt` / `J.popAt` on the unfolded tree and compares it with what
 the store unfolds to afterwards: "ok" / "BAD"; "na" when the premises do not hold. -/
 
+/-- is everything below `v` a tree — every container object met once?  (decided on the store itself,
+before anything is unfolded: a store full of aliases unfolds to an exponentially large tree) -/
+partial def treeShaped (h : Heap) (v : Val) (seen : List Nat) : Option (List Nat) :=
+  match v with
+  | .atom _ => some seen
+  | .ref id =>
+    if seen.contains id then none
+    else
+      let seen := id :: seen
+      match h[id]? with
+      | some (.dict es) => es.foldl (fun acc kv => acc.bind (treeShaped h kv.2)) (some seen)
+      | some (.list xs) => xs.foldl (fun acc x => acc.bind (treeShaped h x)) (some seen)
+      | none => some seen
+
 def nodupB : List Nat → Bool
   | [] => true
   | x :: xs => !xs.contains x && nodupB xs
 
 def treeVerdictSet (h1 : Heap) (root v : Val) (m : MNode Val) (h' : Heap) : String :=
+  if ((treeShaped h1 root []).bind (treeShaped h1 v)).isNone then "na" else
   let j := unfoldVal h1 64 root
   let jv := unfoldVal h1 64 v
   let fr := fpJ h1 j root
@@ -247,6 +262,7 @@ def namesOfSteps : List (Step Val) → Option (List Name)
 
 /-- the same for a cascading assignment along a path of keys / indices: `J.cascadeAt` -/
 def treeVerdictCascade (h1 : Heap) (root v : Val) (steps : List (Step Val)) (h' : Heap) : String :=
+  if ((treeShaped h1 root []).bind (treeShaped h1 v)).isNone then "na" else
   let j := unfoldVal h1 64 root
   let jv := unfoldVal h1 64 v
   let fr := fpJ h1 j root
@@ -260,6 +276,7 @@ def treeVerdictCascade (h1 : Heap) (root v : Val) (steps : List (Step Val)) (h' 
       | none => "BAD"
 
 def treeVerdictPop (h : Heap) (root : Val) (last : Option (Step Val)) (m : MNode Val) (h' : Heap) : String :=
+  if (treeShaped h root []).isNone then "na" else
   let j := unfoldVal h 64 root
   if !nodupB (fpJ h j root) then "na"
   else match m.parent, last with
